@@ -13,6 +13,31 @@ NOT_DECIDED = []
 BM_SRC = {"cxx": S.BM, "out": "bm.c", "header": True}
 INC = ["@suites/common"]
 
+KINDS = ["IADD_RS", "IADD_M", "ISUB_R", "ISUB_M", "IMUL_R", "IMUL_M", "IMULH_R", "IMULH_M", "ISMULH_R", "ISMULH_M",
+         "IMUL_RCP", "INEG_R", "IXOR_R", "IXOR_M", "IROR_R", "IROL_R", "ISWAP_R", "FSWAP_R", "FADD_R", "FADD_M", "FSUB_R",
+         "FSUB_M", "FSCAL_R", "FMUL_R", "FDIV_M", "FSQRT_R", "CBRANCH", "CFROUND", "ISTORE"]
+EXEC_REPLACE = ["BytecodeMachine_compileInstruction", "randomx_reciprocal", "mulh", "smulh", "rotr", "rotl",
+                "rx_set_rounding_mode", "load64", "load32", "store64",
+                "rx_add_vec_f128", "rx_sub_vec_f128", "rx_mul_vec_f128", "rx_div_vec_f128", "rx_sqrt_vec_f128"]
+
+
+def exec_ob(kind):
+    return {
+        "name": "exec_" + kind,
+        "files": [BM_SRC, "harness_exec.c", "@suites/common/ghost_fprc.c"],
+        "incdirs": INC,
+        "defines": ['RXV_CONTRACTS_H="contracts_bm_exe.h"', "KIND=S_" + kind],
+        "entry": "h_exec",
+        "replace": EXEC_REPLACE + ["BytecodeMachine_exe_IMUL_R", "BytecodeMachine_exe_IMUL_M"],
+        "cbmc_flags": ["--object-bits", "12"],
+        "checks": ["--bounds-check", "--pointer-check", "--div-by-zero-check", "--undefined-shift-check", "--signed-overflow-check"],
+        "expect_classes": ["assertion"],
+        "expect_min": 8,
+        "timeout": 1200,
+        "weight": 2,
+    }
+
+
 OBLIGATIONS = [
     {
         "name": "decode_contract",
@@ -29,4 +54,12 @@ OBLIGATIONS = [
                    "flags": ["-O1", "-I/verif/suites/common"],
                    "capture": [r"dynamic_object\$\d+\.(opcode|dst|src|mod|imm32)$", r"dynamic_object\$\d+\.(registerUsage\[\d\])l?$", r"^(i)$"]},
     },
+] + [exec_ob(k) for k in KINDS] + [
+    {
+        "name": "exe_%s_body_alias%d" % (("IMUL_M" if mf else "IMUL_R"), al),
+        "files": [BM_SRC, "harness_exe_mul.c", "@suites/common/ghost_fprc.c"],
+        "incdirs": INC, "defines": ["MEMFORM=%d" % mf, "ALIAS=%d" % al], "entry": "h_exe_mul",
+        "replace": ["load64"], "expect_classes": ["assertion"], "expect_min": 4, "backend": "z3",
+        "checks": ["--bounds-check", "--pointer-check", "--div-by-zero-check", "--undefined-shift-check", "--signed-overflow-check"],
+    } for mf in (0, 1) for al in (0, 1)
 ]
